@@ -2,6 +2,7 @@
 //! `--cfg leptos_verif` (see README.md). `h_dom <sub-command>` reads cases on stdin (one
 //! sexp per line) and prints one observation per line. One file per sub-command.
 mod c04;
+mod c04l;
 mod c05;
 mod c03;
 mod c11;
